@@ -155,7 +155,7 @@ theorem pickFrom_spec (s : List Char) : ∀ (rs : List (TK × Pat)) (k : TK) (r 
       · cases h
         exact ⟨p0, List.mem_cons_self .., hl⟩
 
-theorem pick_spec {s r : List Char} {k : TK} (h : pick s = some (k, r)) :
+theorem pickFrom_matches {rules : List (TK × Pat)} {s r : List Char} {k : TK} (h : pickFrom s rules = some (k, r)) :
     r.length < s.length ∧ ∃ p pre, (k, p) ∈ rules ∧ s = pre ++ r ∧ Matches p pre := by
   obtain ⟨p, hp, hl⟩ := pickFrom_spec s rules k r h
   obtain ⟨hlt, pre, hs, hm⟩ := longest_spec hl
@@ -166,26 +166,26 @@ theorem take_of_append {s pre r : List Char} (h : s = pre ++ r) : s.take (s.leng
 
 /-- what a successful run of the lexer returns: a tokenisation of the input in which every token
     text is matched by the rule of its kind -/
-inductive Tokenises : List Char → List Token → Prop where
-  | nil : Tokenises [] []
-  | cons {s r pre k p ts} : (k, p) ∈ rules → Matches p pre → pre ≠ [] → s = pre ++ r → Tokenises r ts →
-      Tokenises s (⟨k, pre⟩ :: ts)
+inductive Tokenises (rules : List (TK × Pat)) : List Char → List Token → Prop where
+  | nil : Tokenises rules [] []
+  | cons {s r pre k p ts} : (k, p) ∈ rules → Matches p pre → pre ≠ [] → s = pre ++ r → Tokenises rules r ts →
+      Tokenises rules s (⟨k, pre⟩ :: ts)
 
-theorem lexAux_tokenises : ∀ (n : Nat) (s : List Char) (pos : Nat) (ts : List Token),
-    lexAux n s pos = .ok ts → Tokenises s ts := by
+theorem lexAuxWith_tokenises (rules : List (TK × Pat)) : ∀ (n : Nat) (s : List Char) (pos : Nat) (ts : List Token),
+    lexAuxWith rules n s pos = .ok ts → Tokenises rules s ts := by
   intro n
   induction n with
-  | zero => intro s pos ts h; simp [lexAux] at h
+  | zero => intro s pos ts h; simp [lexAuxWith] at h
   | succ n ih =>
     intro s pos ts h
     cases s with
-    | nil => simp only [lexAux] at h; cases h; exact .nil
+    | nil => simp only [lexAuxWith] at h; cases h; exact .nil
     | cons c cs =>
-      simp only [lexAux] at h
+      simp only [lexAuxWith] at h
       split at h
       · cases h
       · next k r hp =>
-        obtain ⟨hlt, p, pre, hmem, hs, hm⟩ := pick_spec hp
+        obtain ⟨hlt, p, pre, hmem, hs, hm⟩ := pickFrom_matches hp
         split at h
         · next ts' hrec =>
           cases h
@@ -195,30 +195,32 @@ theorem lexAux_tokenises : ∀ (n : Nat) (s : List Char) (pos : Nat) (ts : List 
           exact .cons hmem hm hne hs (ih r _ ts' hrec)
         · cases h
 
-theorem Tokenises.flatten {s ts} (h : Tokenises s ts) : (ts.map (·.text)).flatten = s := by
+theorem Tokenises.flatten {rules s ts} (h : Tokenises rules s ts) : (ts.map (·.text)).flatten = s := by
   induction h with
   | nil => rfl
   | cons _ _ _ hs _ ih => simp [ih, hs]
 
-/-- an error position reported by `lexAux` is a position of the input at which `pick` finds no
-    token (provided the fuel exceeds the remaining length, which `lex` guarantees) -/
-theorem lexAux_error : ∀ (n : Nat) (s : List Char) (pos e : Nat), s.length < n →
-    lexAux n s pos = .error e → ∃ pre rest, s = pre ++ rest ∧ rest ≠ [] ∧ e = pos + pre.length ∧ pick rest = none := by
+/-- an error position reported by `lexAuxWith` is a position of the input at which no rule of the
+    table matches a non-empty prefix (provided the fuel exceeds the remaining length, which
+    `lexWith` guarantees) -/
+theorem lexAuxWith_error (rules : List (TK × Pat)) : ∀ (n : Nat) (s : List Char) (pos e : Nat), s.length < n →
+    lexAuxWith rules n s pos = .error e →
+    ∃ pre rest, s = pre ++ rest ∧ rest ≠ [] ∧ e = pos + pre.length ∧ pickFrom rest rules = none := by
   intro n
   induction n with
   | zero => intro s pos e hn; omega
   | succ n ih =>
     intro s pos e hn h
     cases s with
-    | nil => simp [lexAux] at h
+    | nil => simp [lexAuxWith] at h
     | cons c cs =>
-      simp only [lexAux] at h
+      simp only [lexAuxWith] at h
       split at h
       · next hp =>
         cases h
         exact ⟨[], c :: cs, by simp, by simp, by simp, hp⟩
       · next k r hp =>
-        obtain ⟨hlt, p, pre, hmem, hs, hm⟩ := pick_spec hp
+        obtain ⟨hlt, p, pre, hmem, hs, hm⟩ := pickFrom_matches hp
         split at h
         · cases h
         · next e' hrec =>
@@ -228,6 +230,24 @@ theorem lexAux_error : ∀ (n : Nat) (s : List Char) (pos e : Nat), s.length < n
           obtain ⟨pre2, rest, hr, hne, he, hpick⟩ := ih r _ e hrl hrec
           refine ⟨pre ++ pre2, rest, by rw [hs, hr, List.append_assoc], hne, ?_, hpick⟩
           rw [he, take_of_append hs]; simp; omega
+
+/-- `pickFrom` finds nothing exactly when no rule of the table has a non-empty match -/
+theorem pickFrom_none (s : List Char) : ∀ (rs : List (TK × Pat)), pickFrom s rs = none →
+    ∀ kp ∈ rs, longest kp.2 s = none := by
+  intro rs
+  induction rs with
+  | nil => intro _ kp h; cases h
+  | cons kp0 rest ih =>
+    intro h kp hmem
+    obtain ⟨k0, p0⟩ := kp0
+    simp only [pickFrom] at h
+    split at h
+    · next hl =>
+      rcases List.mem_cons.mp hmem with rfl | hm
+      · exact hl
+      · exact ih h kp hm
+    · cases h
+    · split at h <;> cases h
 
 /-! ### alphabets -/
 
@@ -353,5 +373,76 @@ def ruleAlphabetOk (kp : TK × Pat) : Bool :=
     match posRanges kp.2 with
     | some rs => rangesWithin rs recognisedRanges
     | none => false
+
+/-- can the pattern match the empty string -/
+def nullable : Pat → Bool
+  | .eps => true
+  | .set _ => false
+  | .seq a b => nullable a && nullable b
+  | .alt a b => nullable a || nullable b
+  | .opt _ => true
+  | .star _ => true
+  | .plus a => nullable a
+
+/-- **well-formedness of a lexer rule table** (decidable; instantiated by `decide` at the table
+    compiled from the regenerated grammar file):
+    * there is exactly one rule per token type, in the order of the ANTLR token numbers
+      (`TK.num`), so "the rule of a token's kind" is well defined and the numbers the harness
+      compares are the positions in the table;
+    * no rule matches the empty string (ANTLR rejects such grammars; maximal munch never emits
+      an empty token);
+    * every rule except STRING consumes only characters of the recognised alphabet, and contains
+      no negated set. -/
+def GoodTable (rules : List (TK × Pat)) : Bool :=
+  rules.map (·.1) == TK.all && rules.all (fun kp => !nullable kp.2) && rules.all ruleAlphabetOk
+
+theorem GoodTable.kinds {rules} (h : GoodTable rules = true) : rules.map (·.1) = TK.all := by
+  simp only [GoodTable, Bool.and_eq_true, beq_iff_eq] at h; exact h.1.1
+
+theorem GoodTable.alphabet {rules} (h : GoodTable rules = true) : ∀ kp ∈ rules, ruleAlphabetOk kp = true := by
+  simp only [GoodTable, Bool.and_eq_true, List.all_eq_true] at h; exact h.2
+
+theorem TK.all_nodup : TK.all.Nodup := by decide
+
+/-- in a good table the rule of a kind is unique -/
+theorem GoodTable.rule_unique {rules} (h : GoodTable rules = true) {k : TK} {p q : Pat}
+    (hp : (k, p) ∈ rules) (hq : (k, q) ∈ rules) : p = q := by
+  have hnd : (rules.map (·.1)).Nodup := by rw [GoodTable.kinds h]; exact TK.all_nodup
+  clear h
+  induction rules with
+  | nil => cases hp
+  | cons x xs ih =>
+    simp only [List.map_cons, List.nodup_cons, List.mem_map, not_exists, not_and] at hnd
+    rcases List.mem_cons.mp hp with rfl | hp'
+    · rcases List.mem_cons.mp hq with hq' | hq'
+      · cases hq'; rfl
+      · exact absurd rfl (hnd.1 (k, q) hq')
+    · rcases List.mem_cons.mp hq with rfl | hq'
+      · exact absurd rfl (hnd.1 (k, p) hp')
+      · exact ih hp' hq' hnd.2
+
+/-- in a tokenisation by a good table, a character outside the recognised alphabet occurs only
+    inside STRING tokens -/
+theorem Tokenises.recognised {rules s ts} (hg : GoodTable rules = true) (ht : Tokenises rules s ts) :
+    ∀ t ∈ ts, t.kind ≠ .STRING → ∀ c ∈ t.text, recognised c = true := by
+  induction ht with
+  | nil => intro t ht; cases ht
+  | cons hmem hm _ _ _ ih =>
+    intro t ht hk c hc
+    rcases List.mem_cons.mp ht with rfl | ht'
+    · have hok := GoodTable.alphabet hg _ hmem
+      simp only [ruleAlphabetOk, Bool.or_eq_true, beq_iff_eq] at hok
+      rcases hok with hs | hr
+      · exact absurd hs hk
+      · split at hr
+        · next rs hrs => exact inRanges_within hr c (alpha_posRanges _ rs c hrs (hm.alpha c hc))
+        · cases hr
+    · exact ih t ht' hk c hc
+
+/-- in a good table every kind has a rule -/
+theorem GoodTable.rule_exists {rules} (h : GoodTable rules = true) (k : TK) : ∃ p, (k, p) ∈ rules := by
+  have hk : k ∈ rules.map (·.1) := by rw [GoodTable.kinds h]; cases k <;> decide
+  obtain ⟨kp, hm, rfl⟩ := List.mem_map.mp hk
+  exact ⟨kp.2, hm⟩
 
 end StorageModel.C10
